@@ -25,13 +25,13 @@ CHECKS = {
    technique="runtime monitoring: environment capture at the runner boundary and in a real child, set-comparison oracle"),
  "C19": dict(
    category="exploration",
-   text="Runtime monitor: ~360 (quick) / ~8k (thorough) sequential and concurrent programs over Start/Client/Protocol/ReattachConfig/ID/Exited/Kill are run against one Client per program (scripted runner with a live in-process server, failing starts, a start that succeeds with nothing listening, real processes) under the race detector; oracles are launch counters, identity of returned addresses/clients, a porcupine linearizability check of each recorded call/return history against a sequential life-cycle model, and race reports attributed to go-plugin by accessing frame.",
+   text="Runtime monitor: ~360 (quick) / ~8k (thorough) sequential and concurrent programs over Start/Client/Protocol/ReattachConfig/ID/Exited/Kill are run against one Client per program (scripted runner with a live in-process server, failing starts, a start that succeeds with nothing listening, one where the listener only comes up later, real processes) under the race detector; oracles are launch counters, identity of returned addresses/clients, a porcupine linearizability check of each recorded call/return history against a sequential life-cycle model, and race reports attributed to go-plugin by accessing frame.",
    design_ref="DESIGN.md section 3, C19",
    note="Trusts porcupine v1.3.0 and the Go race detector; the life-cycle model leaves ID/Exited unconstrained while a Kill may be in flight.",
    technique="runtime monitoring: recorded-history linearizability (porcupine) + launch counters + Go race detector"),
  "C05": dict(
    category="fault_enumeration",
-   text="Fault enumeration by runtime monitor: 20 named ways a Start can fail after launch x 6 launch methods (incl. a custom runner whose stdout reader breaks) (real process via Cmd, custom runner around a real process, the same with a Kill that honours its context without / with a grace period and the failure placed late in the start window, scripted in-process runner); the monitor reads the launched pid's /proc state at Start-return and while polling 5 s, counts runner Kill calls, times a later Kill, checks reaping and the temp socket directory.",
+   text="Fault enumeration by runtime monitor: 20 named ways a Start can fail after launch (plus start timeouts of 1 ns - 3 ms that expire during the launch itself) x 6 launch methods (incl. a custom runner whose stdout reader breaks) (real process via Cmd, custom runner around a real process, the same with a Kill that honours its context without / with a grace period and the failure placed late in the start window, scripted in-process runner); the monitor reads the launched pid's /proc state at Start-return and while polling 5 s, counts runner Kill calls, times a later Kill, checks reaping and the temp socket directory.",
    design_ref="DESIGN.md section 3, C05",
    note="'shortly after' = 5 s; causes are only those every reading of C01 rejects; thorough repeats each cause 10x with seeded output delays.",
    technique="runtime monitoring: /proc process-state monitor over enumerated start-failure causes"),
@@ -55,7 +55,7 @@ CHECKS = {
    technique="runtime monitoring: id/nonce echo + health re-check oracle over sequential multiplexed establishments, schedule perturbation at hook points"),
  "C09": dict(
    category="exploration",
-   text="Runtime monitor: histories of unmatched / duplicate / late / expiry-aligned broker operations (the expiry alignment is produced deterministically by blocking the expiry goroutine at a hook point) (incl. a second dial to an id whose waiting accept was already served) on MuxBroker, GRPCBroker and multiplexed GRPCBroker, each followed by matched pairs on fresh ids in both directions and a close; oracle: every call returns (nominal 5 s, hang threshold 40 s), unmatched calls fail, fresh pairs succeed, a final close racing with listener announcements lets every call return, no goroutine with broker frames remains after all clients are closed. The defects it found (D5, D6 stale knock, D19 leaked knock listener) are repaired; known_findings.json holds only fixed entries.",
+   text="Runtime monitor: histories of unmatched / duplicate / late / expiry-aligned broker operations (the expiry alignment is produced deterministically by blocking the expiry goroutine at a hook point) (incl. a second dial to an id whose waiting accept was already served, and an id that is announced twice after a dial to it timed out) on MuxBroker, GRPCBroker and multiplexed GRPCBroker, each followed by matched pairs on fresh ids in both directions and a close; oracle: every call returns (nominal 5 s, hang threshold 40 s), unmatched calls fail, fresh pairs succeed, a final close racing with listener announcements lets every call return, no goroutine with broker frames remains after all clients are closed. The defects it found (D5, D6 stale knock, D19 leaked knock listener) are repaired; known_findings.json holds only fixed entries.",
    design_ref="DESIGN.md section 3, C09 and section 4 (D5, D6)",
    note="Bounded-progress reading of liveness; thresholds are generous so a loaded machine cannot manufacture alarms.",
    technique="runtime monitoring: bounded-progress oracle over fault histories with hook-controlled line-up, goroutine-dump leak monitor"),
@@ -73,7 +73,7 @@ CHECKS = {
    technique="runtime monitoring: /proc + cleanup-marker oracle over real subprocess shutdown behaviours, race detector"),
  "C02": dict(
    category="exploration",
-   text="Runtime monitor: one real plugin subprocess per (host version set, plugin version set) pair over versions 0-4 with versioned / legacy / mixed layouts and per-version wire protocols; every plugin set carries a version tag reported by the dispensed implementation and by the host-side wrapper; half the cases also run the plugin directly with a chosen PLUGIN_PROTOCOL_VERSIONS to read the raw announced line. Relaunch cases start a second plugin (other version sets) through the same ClientConfig object; overlap cases give the host a ProtocolVersion that also has its own VersionedPlugins entry while Plugins holds another version's set. Oracle = set arithmetic (highest common version, lowest when no list, incompatible-version error + terminated process when disjoint). Thorough is exhaustive over all 31x31 subset pairs.",
+   text="Runtime monitor: one real plugin subprocess per (host version set, plugin version set) pair over versions 0-4 (and over {2,9,10,11,100}: different digit counts) with versioned / legacy / mixed layouts and per-version wire protocols; every plugin set carries a version tag reported by the dispensed implementation and by the host-side wrapper; half the cases also run the plugin directly with a chosen PLUGIN_PROTOCOL_VERSIONS to read the raw announced line. Relaunch cases start a second plugin (other version sets) through the same ClientConfig object; overlap cases give the host a ProtocolVersion that also has its own VersionedPlugins entry while Plugins holds another version's set. Oracle = set arithmetic (highest common version, lowest when no list, incompatible-version error + terminated process when disjoint). Thorough is exhaustive over all 31x31 subset pairs.",
    design_ref="DESIGN.md section 3, C02",
    note="Sets registered under one version use the same wire protocol on both sides; GRPCServer configured whenever a plugin-side set is gRPC.",
    technique="runtime monitoring: version-tag echo + raw handshake line capture, set-arithmetic oracle (exhaustive in thorough)"),
@@ -91,7 +91,7 @@ CHECKS = {
    technique="runtime monitoring: prefix-of-regenerated-stream oracle over self-describing frames, race detector on both processes"),
  "C12": dict(
    category="exploration",
-   text="Runtime monitor with hostile peers: for every connection path (main listeners of all three protocols incl. a race for the multiplexed listener's single session, plugin-side and host-side brokered gRPC listeners reached by their sockets and, with and without multiplexing, over the legitimate session through DialWithOptions with replaced transport credentials) intruders with five credential classes speak the real wire protocol and any answered RPC is a violation, while a positive control by the legitimate peer must succeed in the same case; plugins started directly with PLUGIN_CLIENT_CERT in eight unusual shapes are attacked the same way; impostor plugins announce one certificate and serve another (or plaintext, or another leaf with the announced certificate appended to its chain) with the real protocol and any completed host RPC is a violation.",
+   text="Runtime monitor with hostile peers: for every connection path (main listeners of all three protocols incl. a race for the multiplexed listener's single session, plugin-side and host-side brokered gRPC listeners reached by their sockets and, with and without multiplexing, over the legitimate session through DialWithOptions with replaced transport credentials) intruders with five credential classes speak the real wire protocol and any answered RPC is a violation, while a positive control by the legitimate peer must succeed in the same case; plugins started directly with PLUGIN_CLIENT_CERT in eight unusual shapes are attacked the same way; a plugin with a TLSProvider of its own launched by an AutoMTLS host must either be unusable for that host or refuse the intruders; impostor plugins announce one certificate and serve another (or plaintext, or another leaf with the announced certificate appended to its chain) with the real protocol and any completed host RPC is a violation.",
    design_ref="DESIGN.md section 3, C12",
    note="Samples credential classes with fresh keys per case; cases without a successful positive control are inconclusive.",
    technique="runtime monitoring: intruder/impostor probes with positive controls against real AutoMTLS plugin processes"),
@@ -103,7 +103,7 @@ CHECKS = {
    technique="runtime monitoring: external process/syscall monitor (strace) plus raw stdio and file-system observation"),
  "C14": dict(
    category="exploration",
-   text="Runtime monitor over the configuration cross product (576 cells + option conflicts + plugins that ignore PLUGIN_CLIENT_CERT + hosts that set AutoMTLS and a static TLSConfig together + raw-line plugins + cells with several versions per side and a wire protocol per version; quick = seeded sample with every expectation kind, thorough = exhaustive): each cell launches a real plugin subprocess and records start error class, protocol in use, Ping, identity-tagged call, brokered callbacks in both directions, an 8 MiB response, 5 MiB responses on brokered connections, Dispense of an unknown name, process state after refusals, hangs and panics; a classification table written from the statement (MUST_WORK / MUST_FAIL_AT_START(kind) / MUST_NOT_WORK / EITHER_BUT_CLEAN) is the oracle.",
+   text="Runtime monitor over the configuration cross product (576 cells + option conflicts + plugins that ignore PLUGIN_CLIENT_CERT + hosts that set AutoMTLS and a static TLSConfig together + raw-line plugins + cells with several versions per side and a wire protocol per version + short handshake lines without a protocol field against hosts that do not allow net/rpc; quick = seeded sample with every expectation kind, thorough = exhaustive): each cell launches a real plugin subprocess and records start error class, protocol in use, Ping, identity-tagged call, brokered callbacks in both directions, an 8 MiB response, 5 MiB responses on brokered connections, Dispense of an unknown name, process state after refusals, hangs and panics; a classification table written from the statement (MUST_WORK / MUST_FAIL_AT_START(kind) / MUST_NOT_WORK / EITHER_BUT_CLEAN) is the oracle.",
    design_ref="DESIGN.md section 3, C14",
    note="Documented-unsupported combinations (AutoMTLS+TLSProvider, AutoMTLS+reattach) are only required to be clean; static TLS is configured so that both sides can act as TLS server and client (brokered connections need both roles).",
    technique="runtime monitoring: classification-table oracle over the real configuration cross product (exhaustive in thorough)"),
